@@ -11,3 +11,4 @@ import MicroHttp.Props.Tables
 #print axioms MicroHttp.Tables.pending_write_pred
 #print axioms MicroHttp.Tables.no_shared_state
 #print axioms MicroHttp.Tables.no_interior_mutability
+#print axioms MicroHttp.Tables.conn_new
